@@ -734,6 +734,36 @@ def r11_names_compared_case_insensitively(ctx, rep):
         raise AnalysisError("entity modules not inspected")
 
 
+def r12_flags_survive_the_round_trip(ctx, rep):
+    """An attribute that is a flag (`deferred`, `generic`: assigned True / False in the entity classes) is exported to modules.json
+    and read back by the project that links to it, where templates test it (`{% if tb.deferred %}`).  If the writer turns every
+    scalar into text (`str(value)`) the reader gets the *string* "False", which is true: every inherited external binding is shown
+    as `deferred, generic`.  Either the writer keeps booleans, or the reader converts them back."""
+    py = ctx.py
+    attrs = const_list(py, "external_project", "ATTRIBUTES")
+    flags = sorted(a for a in attrs if any(
+        isinstance(n, ast.Assign) and any(isinstance(t, ast.Attribute) and t.attr == a and ast.unparse(t.value) == "self" for t in n.targets)
+        and isinstance(n.value, ast.Constant) and isinstance(n.value.value, bool)
+        for _m, fn in py.all_functions() if _m == "sourceform" for n in ast.walk(fn)))
+    if not flags:
+        rep.ob("exported flags keep their truth value", True, "no boolean attribute is exported", "ford/external_project.py", nontrivial=False)
+        return
+    o2d, d2o = py.func("external_project.obj2dict"), py.func("external_project.dict2obj")
+    # the writer's store of a scalar attribute value
+    stores = [e for e in astq.trace(o2d) if e.kind == "assign" and e.target and "[" in e.target and e.value is not None
+              and isinstance(e.value, ast.Call) and call_name(e.value) in ("str", "repr") and e.loops]
+    stringifies = bool(stores) and not any(
+        isinstance(c, ast.Call) and call_name(c) == "isinstance" and any(isinstance(x, ast.Name) and x.id == "bool" for x in ast.walk(c))
+        for t, _p, _s in stores[0].conds for c in ast.walk(t))
+    reader_converts = any(isinstance(c, ast.Constant) and c.value in ("True", "False", "true", "false") for c in ast.walk(d2o))
+    ok = not stringifies or reader_converts
+    rep.ob(f"exported flags {flags} keep their truth value", ok,
+           "booleans are written as booleans (or converted back when read)" if ok else
+           f"obj2dict writes `{ast.unparse(stores[0].value)}` for every scalar attribute - also for the flags {flags} - and dict2obj "
+           f"stores what it reads: the linking project sees the string 'False', which is true, and shows every external binding as "
+           f"{' and '.join(flags)}", py.nloc(stores[0].node) if stores else py.nloc(o2d))
+
+
 RULES = [
     RuleSpec("C16.R6", r6_fresh_objects_and_node_urls, "one object per exported entity; external node URLs unchanged", floor=1),
     RuleSpec("C16.R1", r1_error_coverage, "exception coverage of the external load path", floor=5),
@@ -746,4 +776,5 @@ RULES = [
     RuleSpec("C16.R9", r9_ident_key, "entities are not identified by ident alone (shared with C10.R6)", floor=1),
     RuleSpec("C16.R10", r10_cached_description, "memoised loaders do not share containers that callers edit", floor=1),
     RuleSpec("C16.R11", r11_names_compared_case_insensitively, "names are lower-cased on both sides of a comparison", floor=1),
+    RuleSpec("C16.R12", r12_flags_survive_the_round_trip, "boolean attributes survive export and re-import", floor=1),
 ]
